@@ -830,3 +830,50 @@ Lemma unfinalized_set_order_refuted_proof :
   /\ expand true [CLEAR; a] [b] = Ok [a]
   /\ expand true [a; CLEAR] [b] = Ok [].
 Proof. repeat split; reflexivity. Qed.
+
+(* ================================================================== domain._apply_license_filter *)
+Lemma expand_license_mem lics groups ts s : expand_license lics groups ts = Ok s ->
+  forall x, mem x s = last_writer (lic_adds lics groups) (lic_dels lics groups) (rev ts) x false.
+Proof.
+  intros H x. unfold expand_license in H. rewrite expand_license_is_run in H.
+  rewrite (run_sem _ _ _ (step_license_sem lics groups) ts [] s H x).
+  rewrite (sem_fold_last_writer _ _ ts (fun y => mem y []) x). reflexivity.
+Qed.
+
+Lemma forallb_ext' {A} (f g : A -> bool) l : (forall x, f x = g x) -> forallb f l = forallb g l.
+Proof. intro H. induction l as [|y l IH]; cbn; [reflexivity|]. rewrite H, IH. reflexivity. Qed.
+
+Lemma license_accept_spec groups stream : first_bad bad_license stream = None ->
+  forall alts, license_accept groups stream alts = BOk (accepted_by_stream groups stream alts).
+Proof.
+  intros FB alts. induction alts as [|alt r IH]; [reflexivity|].
+  cbn [license_accept]. pose proof (license_rejects_proof alt groups stream) as R.
+  rewrite FB in R. destruct R as [s Hs]. rewrite Hs.
+  assert (E : superset s alt
+              = forallb (fun x => last_writer (lic_adds alt groups) (lic_dels alt groups)
+                                              (rev stream) x false) alt).
+  { unfold superset. apply forallb_ext'. intro x. apply (expand_license_mem _ _ _ _ Hs). }
+  unfold accepted_by_stream. cbn [existsb]. rewrite <- E.
+  destruct (superset s alt); [reflexivity|]. rewrite IH. reflexivity.
+Qed.
+
+(* every answer of a long-lived license filter, at any point of any sequence of queries, is the
+   last-writer-wins reading of "ACCEPT_LICENSE tokens, then the entries matching this package" *)
+Lemma license_filter_is_stream_proof : forall master entries groups qs,
+  (forall q, In q qs -> first_bad bad_license (license_stream master entries (fst q)) = None) ->
+  license_filter_seq master entries groups qs
+  = map (fun q => BOk (accepted_by_stream groups (license_stream master entries (fst q)) (snd q))) qs.
+Proof.
+  intros master entries groups qs W. unfold license_filter_seq. apply map_ext_in.
+  intros q Hq. unfold license_filter. apply license_accept_spec. apply W. exact Hq.
+Qed.
+
+Example license_filter_example :
+  let FREE := [70%N] in let EULA := [69%N] in let mit := [109%N] in let eu := [101%N] in
+  let groups := [(FREE, [mit]); (EULA, [eu])] in
+  (* ACCEPT_LICENSE="-* @FREE"; package.license: "x @EULA", "y -*" *)
+  license_filter_seq [CLEAR; AT :: FREE] [[AT :: EULA]; [CLEAR]] groups
+    [([false; false], [[eu]]); ([true; false], [[eu]]); ([false; false], [[eu]]);
+     ([false; true], [[mit]]); ([false; false], [[mit]; [eu]])]
+  = [BOk false; BOk true; BOk false; BOk false; BOk true].
+Proof. reflexivity. Qed.
